@@ -105,8 +105,9 @@ class FileDumper(DumperBase):
             if descriptor['name'] == resource.res.descriptor['name']:
                 resource_descriptor = descriptor
 
-        # File size:
-        filesize = temp_file.tell()
+        # File size (a writer may have saved the file by its name: ask the file system)
+        temp_file.flush()
+        filesize = os.path.getsize(temp_file.name)
         DumperBase.inc_attr(self.datapackage.descriptor, self.datapackage_bytes, filesize)
         DumperBase.set_attr(resource_descriptor, self.resource_bytes, filesize)
 
